@@ -99,6 +99,10 @@ func TimeStampToCdr(t *time.Time) cdrType.TimeStamp {
 
 func PlmnIdToCdr(modelsPlmnid models.PlmnId) cdrType.PLMNId {
 	var hexString string
+	if len(modelsPlmnid.Mcc) != 3 || (len(modelsPlmnid.Mnc) != 2 && len(modelsPlmnid.Mnc) != 3) {
+		// not 3 + 2/3 digits: no PLMN identity can be built
+		return cdrType.PLMNId{}
+	}
 	mcc := strings.Split(modelsPlmnid.Mcc, "")
 	mnc := strings.Split(modelsPlmnid.Mnc, "")
 	if len(modelsPlmnid.Mnc) == 2 {
